@@ -117,6 +117,9 @@ class PhaseWorld(World):
         prob = self._gen_problem(rng, kind)
         if g == "qpe":
             prob["m"] = min(prob["m"], 4)
+            if rng.random() < 0.4:
+                # textbook QPE assembled by hand from the public pieces, phase register below / above the state register
+                return {"k": "manual_qpe", "prob": prob, "placement": rng.choice(["bottom", "bottom", "top"])}
             return {"k": "qpe", "prob": prob, "shots": rng.choice([None, None, 1, 5, 50])}
         op = {"k": "iqpe", "prob": prob, "shots": rng.choice([1, 1, 2, 3]), "reps": 2}
         if self.ctx.faults.random() < cfg["script_rate"]:
@@ -125,8 +128,9 @@ class PhaseWorld(World):
         return op
 
     # -- problems -----------------------------------------------------------------------------------------------------
-    def _build_problem(self, prob):
-        """Returns (solver option dict pieces, integer phase numerator k such that phase = k / 2^m, n_state)."""
+    def _build_problem(self, prob, off=0):
+        """Returns (solver option dict pieces, integer phase numerator k such that phase = k / 2^m, n_state).
+        off shifts every state-qubit index (used by the hand-assembled QPE with the phase register below the state)."""
         from tangelo.linq import Circuit, Gate
         from tangelo.toolboxes.operators import QubitOperator
         m, ns, x = prob["m"], prob["ns"], prob["x"]
@@ -135,30 +139,30 @@ class PhaseWorld(World):
             gates, k = [], 0
             for g in prob["gates"]:
                 if g[0] == "PHASE":
-                    gates.append(Gate("PHASE", g[1], parameter=2 * PI * g[2] / (2 * N)))
+                    gates.append(Gate("PHASE", g[1] + off, parameter=2 * PI * g[2] / (2 * N)))
                     k2 = g[2] if x[g[1]] else 0                 # units of 1/(2N)
                     k += k2
                 elif g[0] == "RZ":
-                    gates.append(Gate("RZ", g[1], parameter=2 * PI * 2 * g[2] / (2 * N)))   # RZ(t): phases -/+ t/2
+                    gates.append(Gate("RZ", g[1] + off, parameter=2 * PI * 2 * g[2] / (2 * N)))   # RZ(t): phases -/+ t/2
                     k += (g[2] if x[g[1]] else -g[2])
                 elif g[0] == "CPHASE":
-                    gates.append(Gate("CPHASE", g[1], control=g[2], parameter=2 * PI * g[3] / N))
+                    gates.append(Gate("CPHASE", g[1] + off, control=g[2] + off, parameter=2 * PI * g[3] / N))
                     k += 2 * g[3] if (x[g[1]] and x[g[2]]) else 0
                 elif g[0] == "T":
-                    gates.append(Gate("T", g[1]))
+                    gates.append(Gate("T", g[1] + off))
                     k += (2 * N // 8) if x[g[1]] else 0
                 elif g[0] == "S":
-                    gates.append(Gate("S", g[1]))
+                    gates.append(Gate("S", g[1] + off))
                     k += (2 * N // 4) if x[g[1]] else 0
                 else:
-                    gates.append(Gate("Z", g[1]))
+                    gates.append(Gate("Z", g[1] + off))
                     k += N if x[g[1]] else 0
             if k % 2:
                 return None          # not representable in m bits (half-unit): the generator retries by skipping
             kk = (k // 2) % N
-            if set(range(ns)) - {q for g in gates for q in g.target}:
+            if set(range(off, off + ns)) - {q for g in gates for q in g.target}:
                 return None          # every state qubit must be touched by the unitary (else the ancilla collides with the state register)
-            ref = Circuit([Gate("X", q) for q in range(ns) if x[q]], n_qubits=ns)
+            ref = Circuit([Gate("X", q + off) for q in range(ns) if x[q]], n_qubits=ns + off)
             ucirc = Circuit(gates)
             return {"unitary": ucirc, "ref_state": ref, "unitary_options": {"control_method": "all"}}, kk, ns
         axes = prob["axes"]
@@ -167,27 +171,27 @@ class PhaseWorld(World):
         s = [1 - 2 * b for b in x]                 # eigenvalue of P_q on the prepared eigenstate
         e = prob["const"]
         for q in range(ns):
-            terms[((q, axes[q]),)] = 2 * PI * prob["one"][q] / N
+            terms[((q + off, axes[q]),)] = 2 * PI * prob["one"][q] / N
             e += prob["one"][q] * s[q]
         for a, b, c in prob["two"]:
-            key = ((a, axes[a]), (b, axes[b]))
+            key = ((a + off, axes[a]), (b + off, axes[b]))
             terms[key] = terms.get(key, 0.0) + 2 * PI * c / N
             e += c * s[a] * s[b]
         if prob["const"]:
             terms[()] = 2 * PI * prob["const"] / N
         terms = {t: c for t, c in terms.items() if abs(c) > 1e-12 or not t}
-        if any(((q, axes[q]),) not in terms for q in range(ns)):
+        if any(((q + off, axes[q]),) not in terms for q in range(ns)):
             return None
         H.terms = dict(terms)
         ref_gates = []
         for q in range(ns):
             if x[q]:
-                ref_gates.append(Gate("X", q))
+                ref_gates.append(Gate("X", q + off))
             if axes[q] == "X":
-                ref_gates.append(Gate("H", q))
+                ref_gates.append(Gate("H", q + off))
             elif axes[q] == "Y":
-                ref_gates += [Gate("H", q), Gate("S", q)]
-        ref = Circuit(ref_gates, n_qubits=ns)
+                ref_gates += [Gate("H", q + off), Gate("S", q + off)]
+        ref = Circuit(ref_gates, n_qubits=ns + off)
         tr = prob["trotter"]
         # U = exp(-i H t) with t = -1: eigenvalue exp(+iE) = exp(2 pi i e / N)
         uo = {"time": -1.0, "trotter_order": tr["order"], "n_trotter_steps": tr["steps"], "n_steps_method": tr["method"]}
@@ -203,6 +207,8 @@ class PhaseWorld(World):
             return self._sv(op)
         if k in ("qpe", "iqpe"):
             return self._pe(op)
+        if k == "manual_qpe":
+            return self._manual_qpe(op)
         raise HarnessError(k)
 
     def _qft(self, op):
@@ -329,6 +335,57 @@ class PhaseWorld(World):
         ctx.outcome(k, "ok" if not V else "violation")
         return V
 
+    def _manual_qpe(self, op):
+        """Standard QPE assembled from get_qft_circuit + Unitary.build_circuit(2**i, control=q), exactly as QPESolver does,
+        but with a free placement of the phase register (bottom: register on qubits 0..m-1, control qubit 0 included)."""
+        from tangelo.toolboxes.ansatz_generator.ansatz_utils import get_qft_circuit
+        from tangelo.toolboxes.unitary_generator import TrotterSuzukiUnitary, CircuitUnitary
+        ctx, V = self.ctx, []
+        prob = op["prob"]
+        m, ns = prob["m"], prob["ns"]
+        bottom = op["placement"] == "bottom"
+        off = m if bottom else 0
+        built = self._build_problem(prob, off=off)
+        if built is None:
+            ctx.outcome("manual_qpe", "skipped-unrepresentable")
+            return V
+        opts, kk, _ = built
+        reg0 = 0 if bottom else ns
+        reg = list(reversed(range(reg0, reg0 + m)))
+        site = f"manual_qpe:{prob['kind']}:{op['placement']}"
+        self.sig.add(("manual_qpe", prob["kind"], m, ns, int(bottom), False))
+        try:
+            if "qubit_hamiltonian" in opts:
+                U = TrotterSuzukiUnitary(opts["qubit_hamiltonian"], **opts["unitary_options"])
+            else:
+                U = CircuitUnitary(opts["unitary"], **opts["unitary_options"])
+            circ = opts["ref_state"] + get_qft_circuit(list(reg))
+            for i, q in enumerate(reg):
+                circ += U.build_circuit(2 ** i, control=q)
+            circ += get_qft_circuit(list(reg), inverse=True)
+        except Exception as ex:
+            ctx.outcome("manual_qpe", "refused-unexpectedly")
+            return [Violation("C20", "unexpected-refusal", site, {"exception": repr(ex)[:300], "op": op})]
+        n = m + ns
+        gates = [C.j_to_ref(C.gate_to_j(g)) for g in circ]
+        if any(q >= n for g in gates for q in list(g[1]) + list(g[2])):
+            return [Violation("C20", "circuit-touches-foreign-qubits", site, {"op": op})]
+        psi = R.run(gates, n)
+        dist = R.distribution(psi, n, 1e-9)
+        marg = {}
+        for b, p in dist.items():
+            key = b[reg0:reg0 + m]
+            marg[key] = marg.get(key, 0.0) + p
+        bits = format(kk, f"0{m}b")
+        ctx.check("C20.manual_qpe")
+        ctx.outcome("manual_qpe", "ok")
+        if bottom:
+            ctx.probe("C20.phase_register_below_state_register")
+        if set(k_ for k_, p in marg.items() if p > 1e-7) != {bits} or abs(marg.get(bits, 0) - 1) > 1e-6:
+            V.append(Violation("C20", "phase-not-returned-with-certainty", site, {"register_distribution": {k_: round(p, 6) for k_, p in marg.items() if p > 1e-7},
+                                                                                  "expected_bits": bits, "op": op}))
+        return V
+
     @staticmethod
     def shrink_op(op):
         out = []
@@ -336,7 +393,7 @@ class PhaseWorld(World):
             o = dict(op)
             o.pop("script")
             out.append(o)
-        if op["k"] in ("qpe", "iqpe"):
+        if op["k"] in ("qpe", "iqpe", "manual_qpe"):
             p = op["prob"]
             if p.get("two"):
                 o = dict(op)
